@@ -160,6 +160,8 @@ def rules(ctx):
     from .C12 import gap_guard, gap_operands
     gap_guard(ctx)          # consecutive nodes of a tour stay connectable when a segment is taken out
     gap_operands(ctx)
+    from .C12 import path_new_checks_every_hop
+    path_new_checks_every_hop(ctx, "R2")
     from .C15 import empty_cycle_bookkeeping
     empty_cycle_bookkeeping(ctx)     # every vehicle sits in exactly one cycle: the free-list never hands out an occupied cycle
     # the producer-set and guard rules behind the tour / limit / membership invariants
